@@ -352,6 +352,15 @@ static void run_dynrf(const Case& c) {
             std::cout << "ops a\n";
             print_data("off", d->offsets().data(), n);
             print_data("out", out->getData(), static_cast<size_t>(n) * n * nb);
+            if (!c.parts.empty()) {
+                // tracked particles, moved as main() does it: applyToAll right after apply (every step from the same start)
+                std::vector<PhaseSpace::Position> tp;
+                for (auto p : c.parts) tp.push_back({p.first, p.second});
+                d->applyToAll(tp);
+                std::cout << "parts";
+                for (auto& p : tp) std::cout << ' ' << hx(p.x) << ' ' << hx(p.y);
+                std::cout << '\n';
+            }
         } else if (op == "s") {
             st->apply();
             std::cout << "ops s\n";
